@@ -9,9 +9,9 @@ def run(tier, seed):
     res = common.Result(PROP, tier, seed, "model_checking")
     res.assumptions = list(CC.ASSUMPTIONS)
     fixed, sample = CC.mc_scenarios(tier, seed)
-    CC.run_mc(res, fixed, 7 if tier == "quick" else 9, label="reference scenarios", outs_of=None if tier != "quick" else CC.few_outs)
-    CC.run_mc(res, sample, 5 if tier == "quick" else 6, label="sampled 3-node role-assigned scenarios")
-    n = 1400 if tier == "quick" else 20000
+    CC.run_mc(res, fixed, 7 if tier == "quick" else 8, label="reference scenarios", outs_of=CC.few_outs)
+    CC.run_mc(res, sample, 5, label="sampled 3-node role-assigned scenarios")
+    n = 1400 if tier == "quick" else 6000
     tasks = CC.gen_tasks(n, seed, p_fault=0.2, p_dry=0.15, p_render=0.05, norm=None, nmax=8 if tier == "quick" else 10)
     CC.campaign(res, PROP, tasks, 'histories (runs with any output / worker count / scheduler / max_errors, runs cut short by failing calls, failing store operations or a cut at the k-th operation as exception or process death, source updates, deletions, dry runs, renders) on seeded random role-assigned plans (3-8 nodes quick, 3-10 thorough) and on the exhaustive 3-node scenario family, executed on the real library and validated event by event against Caching.tla by TLC; non-trivial = a distinct (scenario, history) with at least two runs and at least one store write')
     return res
